@@ -62,7 +62,15 @@ ASSUMPTIONS = [
     "thread interleavings: only those the GIL build produces under switch interval 1e-6 and injected sleep(0)",
     "config family: rejecting window_size > min(link.min_latency) and events to unlinked partitions is treated as part of the property's enabling mechanism (anchor validation.py:107-115)",
 ]
-MUST_OBSERVE = ["deliveries_compared", "cross_deliveries_checked", "perturbed_runs", "barriers_seen"]
+MUST_OBSERVE = [
+    "deliveries_compared",
+    "cross_deliveries_checked",
+    "perturbed_runs",
+    "barriers_seen",
+    "daemon_deliveries_compared",
+    "cancellations_applied",
+    "duplicate_link_cases",
+]
 
 NS = 1_000_000_000
 LATENCIES = [0.1, 0.25, 1e-3, 0.07, 0.29, 0.3, 1 / 3, 0.05]
@@ -304,8 +312,8 @@ def _gen_script_inner(rng: random.Random, tier: str, profile: str) -> dict:
             end_ns += 1
     if end_ns is not None and end_ns <= start_ns:
         end_ns = start_ns + 1
-    return {
-        "v": 1,
+    case = {
+        "v": 2,
         "mode": "linked",
         "profile": profile,
         "start_ns": start_ns,
@@ -319,6 +327,156 @@ def _gen_script_inner(rng: random.Random, tier: str, profile: str) -> dict:
         "K": 3 if tier == "quick" else 20,
         "pseed": rng.randrange(1 << 30),
     }
+    _decorate(rng, case, profile, weff, next_pid[0])
+    return case
+
+
+def _decorate(rng: random.Random, case: dict, profile: str, weff: float, last_pid: int) -> None:
+    """Widening added after independently seeded changes were missed: daemon flags, cancellations
+    (before the run and by handlers), duplicate link declarations.  Works on the finished script."""
+    w_ns = max(1, int(weff * NS))
+    start_ns = case["start_ns"]
+    part_of = {e: p for p, ents in enumerate(case["parts"]) for e in ents}
+    flags: dict[str, dict] = {}
+    cancels: dict[str, list] = {}
+    pid_box = [last_pid]
+
+    def new_pid() -> int:
+        pid_box[0] += 1
+        return pid_box[0]
+
+    def flag(pid, key):
+        flags.setdefault(str(pid), {})[key] = True
+
+    # -- duplicate declarations of one directed partition pair (validation accepts them)
+    if case["links"] and rng.random() < (0.5 if profile == "duplinks" else 0.15):
+        mode = rng.choice(["one", "all", "some"])
+        base = list(case["links"])
+        if mode == "one":
+            case["links"].append(list(rng.choice(base)))
+        elif mode == "all":
+            case["links"].extend(list(l) for l in base)
+        else:
+            case["links"].extend(list(l) for l in base if rng.random() < 0.5)
+        if rng.random() < 0.3:
+            rng.shuffle(case["links"])
+
+    times = _script_times(case)
+    tmax = max(t for t, _c, _e in times.values())
+    info_parent = {}
+    for pid_s, r in case["react"].items():
+        for _d, _tgt, _typ, cpid in r["out"]:
+            info_parent[cpid] = int(pid_s)
+
+    def descendants(root):
+        out, todo = [], [root]
+        while todo:
+            x = todo.pop()
+            out.append(x)
+            r = case["react"].get(str(x))
+            if r:
+                todo.extend(o[3] for o in r["out"])
+        return out
+
+    # -- daemon events: only with a finite end_time (see ASSUMPTIONS: auto-termination is not compared)
+    want_daemon = profile == "daemon" or rng.random() < 0.2
+    if want_daemon:
+        if case["end_ns"] is None:
+            if profile == "daemon":
+                case["end_ns"] = tmax + rng.choice([0, 1, w_ns, 3 * w_ns])
+            else:
+                want_daemon = False
+    if want_daemon:
+        mode = rng.choice(["tail", "tail", "subtree", "random"])
+        if mode == "tail":
+            cut = rng.choice(sorted(t for t, _c, _e in times.values()))
+            if rng.random() < 0.5:
+                cut -= 1
+            for pid, (t, _c, _e) in times.items():
+                if t > cut:
+                    flag(pid, "daemon")
+            if rng.random() < 0.6:  # the daemon-only tail is due before end_time
+                case["end_ns"] = max(case["end_ns"], tmax + rng.choice([0, 1, w_ns]))
+        elif mode == "subtree":
+            for root in rng.sample(sorted(times), min(len(times), rng.choice([1, 2, 3]))):
+                for pid in descendants(root):
+                    flag(pid, "daemon")
+        else:
+            for pid in times:
+                if rng.random() < 0.3:
+                    flag(pid, "daemon")
+
+    # -- cancellations
+    if profile == "cancel" or rng.random() < 0.2:
+        live_init = [i for i in case["init"]]
+        for _t, _e, _typ, pid in live_init[1:]:
+            if rng.random() < 0.2:
+                flag(pid, "cancelled")  # cancelled before the run
+        by_part: dict[int, list] = {}
+        for pid, (t, _c, e) in times.items():
+            by_part.setdefault(part_of[e], []).append((t, pid))
+        local = [
+            pid
+            for pid, (t, c, e) in times.items()
+            if (pid not in info_parent or part_of[times[info_parent[pid]][2]] == part_of[e]) and t - (c if c is not None else start_ns - 1) >= 2
+        ]
+        rng.shuffle(local)
+        for y in local[: rng.choice([1, 1, 2, 4])]:
+            t, c, e = times[y]
+            lo = c if c is not None else start_ns - 1
+            doomed = set(descendants(y))
+            cands = [x for tx, x in by_part[part_of[e]] if lo < tx < t and x not in doomed]
+            if cands and rng.random() < 0.5:
+                x = rng.choice(cands)
+            else:  # a dedicated 'disarm' event, strictly between creation and due time
+                tx = rng.choice([t - 1, lo + 1, rng.randrange(lo + 1, t)])
+                tx = max(tx, start_ns)
+                if tx >= t:
+                    continue
+                x = new_pid()
+                case["init"].append([tx, rng.choice(case["parts"][part_of[e]]), "K", x])
+            cancels.setdefault(str(x), []).append(y)
+
+    # -- barrier gadget: a cancelled event is the partition's last heap entry at / just before a barrier,
+    #    the next live event lies beyond it, and a cross-partition event becomes due in between
+    if profile == "cancel" and rng.random() < 0.75:
+        link = rng.choice(case["links"])
+        q, p, lat, const = link
+        deff = int(const * NS) if const is not None else min_delay_ns(lat)
+        n = (tmax - start_ns) // w_ns + 12
+        if n < 6000:
+            bars = [b for b in predict_barriers(start_ns, weff, n) if b > tmax + w_ns]
+            if bars:
+                bk = rng.choice(bars[:3])
+                ty = bk + rng.choice([0, 0, -1, -(w_ns // 2), -(w_ns - 1)])
+                lo_a = max(0, deff - w_ns)
+                dz = rng.choice([2, w_ns // 2, deff + 5, 3 * w_ns])
+                if dz <= lo_a + 1:
+                    dz = lo_a + rng.choice([2, w_ns])
+                da = rng.choice([lo_a + 1, dz - 1, rng.randrange(lo_a + 1, dz)])
+                ep, eq = rng.choice(case["parts"][p]), rng.choice(case["parts"][q])
+                y, z, snd, msg = new_pid(), new_pid(), new_pid(), new_pid()
+                case["init"].append([ty, ep, "T", y])
+                case["init"].append([bk + dz, ep, "H", z])
+                case["init"].append([bk + da - deff, eq, "S", snd])
+                case["react"][str(snd)] = {"y": None, "out": [[min_delay_ns(lat), ep, "M", msg]]}
+                if rng.random() < 0.5:
+                    flag(y, "cancelled")
+                else:
+                    x = new_pid()
+                    case["init"].append([max(start_ns, ty - rng.choice([1, max(1, w_ns // 3), w_ns])), ep, "K", x])
+                    cancels.setdefault(str(x), []).append(y)
+                if case["end_ns"] is not None or rng.random() < 0.6:
+                    case["end_ns"] = bk + dz + rng.choice([0, 1, w_ns])
+                    if rng.random() < 0.25:
+                        case["end_ns"] = bk + da
+
+    if flags:
+        case["flags"] = flags
+    if cancels:
+        case["cancels"] = cancels
+    if any(f.get("daemon") for f in flags.values()) and case["end_ns"] is None:
+        case["end_ns"] = max(t for t, _c, _e in _script_times(case).values()) + w_ns
 
 
 def _gen_script(rng: random.Random, tier: str, profile: str) -> dict:
@@ -383,8 +541,8 @@ def gen_independent(rng: random.Random, tier: str) -> dict:
     end_ns = rng.choice([None, times[-1] + 1, rng.choice(times), rng.choice(times) - 1, rng.choice(times) + 1])
     if end_ns is not None and end_ns <= start_ns:
         end_ns = start_ns + 1
-    return {
-        "v": 1,
+    case = {
+        "v": 2,
         "mode": "independent",
         "profile": "independent",
         "start_ns": start_ns,
@@ -398,6 +556,9 @@ def gen_independent(rng: random.Random, tier: str) -> dict:
         "K": 3 if tier == "quick" else 20,
         "pseed": rng.randrange(1 << 30),
     }
+    if init:
+        _decorate(rng, case, "independent", max(unit, 1) / NS, next_pid[0])
+    return case
 
 
 def gen_config(rng: random.Random, tier: str) -> dict:
@@ -450,8 +611,11 @@ def _entity_cls():
     class ScriptEntity(Entity):
         """Stateless: the reaction depends on the payload id only (unique per event)."""
 
-        def __init__(self, name, part, react, part_of, plog, seq_latency):
+        def __init__(self, name, part, react, part_of, plog, seq_latency, flags=None, cancels=None, registry=None):
             super().__init__(name)
+            self._flags = flags or {}  # pid -> {"daemon": bool, "cancelled": bool}
+            self._cancels = cancels or {}  # pid of the cancelling delivery -> [pids of pending local events]
+            self._registry = registry if registry is not None else {}  # pid -> Event, per partition (harness bookkeeping)
             self.peers = {}  # public on purpose: the library's validation walks it
             self._hidden_peers = {}  # config family only: references validation cannot see
             self.log = []  # (clock.now ns, event.time ns, type, pid)
@@ -466,6 +630,11 @@ def _entity_cls():
             now = self._clock.now.nanoseconds
             self.log.append((now, event.time.nanoseconds, event.event_type, pid))
             self._plog.append(("d", now, pid))
+            for tp in self._cancels.get(str(pid), ()):
+                pending = self._registry.get(tp)
+                if pending is not None:
+                    pending.cancel()
+                    self._plog.append(("c", now, tp))
             r = self._react.get(str(pid))
             if not r:
                 return None
@@ -491,7 +660,16 @@ def _entity_cls():
                         if lat is not None:
                             t = now + lat
                     self._plog.append(("x", now.nanoseconds, cpid, t.nanoseconds))
-                out.append(Event(time=t, event_type=typ, target=self.peers.get(tgt) or self._hidden_peers[tgt], context={"metadata": {"pid": cpid}}))
+                ev = Event(
+                    time=t,
+                    event_type=typ,
+                    target=self.peers.get(tgt) or self._hidden_peers[tgt],
+                    daemon=bool(self._flags.get(str(cpid), {}).get("daemon")),
+                    context={"metadata": {"pid": cpid}},
+                )
+                if dst == self._part:
+                    self._registry[cpid] = ev
+                out.append(ev)
             return out
 
     _ENTITY_CLS = ScriptEntity
@@ -511,10 +689,11 @@ def _build_entities(case, sequential: bool):
             if const is not None:
                 seq_latency[(a, b)] = ConstantLatency(const).get_latency(Instant.Epoch)
     plogs = [[] for _ in case["parts"]]
+    regs = [{} for _ in case["parts"]]
     ents = {}
     for p, names in enumerate(case["parts"]):
         for n in names:
-            ents[n] = cls(n, p, case["react"], part_of, plogs[p], seq_latency)
+            ents[n] = cls(n, p, case["react"], part_of, plogs[p], seq_latency, case.get("flags"), case.get("cancels"), regs[p])
     # peers: exactly the entities this one ever sends to (so validation sees only real references)
     target_of = {pid: e for _t, e, _typ, pid in case["init"]}
     for r in case["react"].values():
@@ -530,11 +709,21 @@ def _build_entities(case, sequential: bool):
 
 
 def _init_events(case, ents):
+    """Pre-run events, in case order; daemon flags applied, pre-run cancellations done, all registered
+    in their partition's registry so that handlers can cancel them."""
     _, Event, _, _, Instant, *_ = _lib()
-    return [
-        (e, Event(time=Instant(t), event_type=typ, target=ents[e], context={"metadata": {"pid": pid}}))
-        for t, e, typ, pid in case["init"]
-    ]
+    flags = case.get("flags") or {}
+    out = []
+    for t, e, typ, pid in case["init"]:
+        f = flags.get(str(pid), {})
+        ev = Event(
+            time=Instant(t), event_type=typ, target=ents[e], daemon=bool(f.get("daemon")), context={"metadata": {"pid": pid}}
+        )
+        if f.get("cancelled"):
+            ev.cancel()
+        ents[e]._registry[pid] = ev
+        out.append((e, ev))
+    return out
 
 
 class _TTCapture(logging.Handler):
@@ -655,28 +844,30 @@ def _lib_frame(exc: BaseException) -> str | None:
     return None
 
 
-def _expected_windows(case) -> int:
-    w = case["window"] if case["window"] is not None else min(l[2] for l in case["links"])
-    w_ns = max(1, int(w * NS))
-    tmax = max([t for t, *_ in case["init"]] + [case["start_ns"]])
-    # upper bound of any event time: walk the script
-    times = {pid: t for t, _e, _typ, pid in case["init"]}
-    pending = list(times)
+def _script_times(case) -> dict:
+    """pid -> (due time, creation time, target entity) if every ancestor is delivered (generator-side arithmetic)."""
     const_of = {(a, b): c for a, b, _l, c in case["links"]}
     part_of = {e: p for p, ents in enumerate(case["parts"]) for e in ents}
-    target_of = {pid: e for _t, e, _typ, pid in case["init"]}
+    out = {pid: (t, None, e) for t, e, _typ, pid in case["init"]}
+    pending = list(out)
     while pending:
         pid = pending.pop()
         r = case["react"].get(str(pid))
         if not r:
             continue
-        st = times[pid] + (int(r["y"] * NS) if r.get("y") is not None else 0)
+        t, _c, ent = out[pid]
+        st = t + (int(r["y"] * NS) if r.get("y") is not None else 0)
         for d, tgt, _typ, cpid in r["out"]:
-            c = const_of.get((part_of[target_of[pid]], part_of[tgt]))
-            times[cpid] = st + (int(c * NS) if c is not None else d)
-            target_of[cpid] = tgt
-            tmax = max(tmax, times[cpid])
+            c = const_of.get((part_of[ent], part_of[tgt]))
+            out[cpid] = (st + (int(c * NS) if c is not None else d), st, tgt)
             pending.append(cpid)
+    return out
+
+
+def _expected_windows(case) -> int:
+    w = case["window"] if case["window"] is not None else min(l[2] for l in case["links"])
+    w_ns = max(1, int(w * NS))
+    tmax = max([t for t, _c, _e in _script_times(case).values()] + [case["start_ns"]])
     last = tmax if case["end_ns"] is None else min(case["end_ns"], tmax + w_ns)
     return (last - case["start_ns"]) // w_ns + 3
 
@@ -1064,7 +1255,18 @@ def run_linked(case: dict) -> Result:
         res.inconclusive = "sequential reference itself discarded an event"
         return res
     res.count("seq_deliveries", sum(len(l) for l in seq["logs"].values()))
+    fl = case.get("flags") or {}
+    res.count(
+        "daemon_deliveries_compared",
+        sum(1 for l in seq["logs"].values() for r in _restrict(l, case["end_ns"]) if fl.get(str(r[3]), {}).get("daemon")),
+    )
+    res.count(
+        "cancellations_applied",
+        sum(1 for pl in seq["plogs"] for r in pl if r[0] == "c") + sum(1 for f in fl.values() if f.get("cancelled")),
+    )
+    res.count("duplicate_link_cases", int(len({(l[0], l[1]) for l in case["links"]}) < len(case["links"])))
     par0 = run_parallel(case)
+    order0 = [[r[2] for r in pl if r[0] == "d"] for pl in par0["plogs"]]
     base = check_parallel_against(case, par0, seq, res, "default-schedule")
     res.count("parallel_runs")
     res.count("windows_run", len(par0["barriers"]))
@@ -1100,6 +1302,9 @@ def run_linked(case: dict) -> Result:
             break
         if par["status"] == "completed" and par["lines"] == 0:
             res.count("perturbation_inactive")
+        if [[r[2] for r in pl if r[0] == "d"] for pl in par["plogs"]] != order0:
+            # same deliveries, other order inside one timestamp: permitted by C05 (it is C03's subject); evidence only
+            res.count("same_instant_order_varies_with_schedule")
     return res
 
 
@@ -1305,19 +1510,37 @@ FAMILIES = {
     "far_epoch": Family("far_epoch", gen_profile("far_epoch"), run_linked, shrink=shrink_script, case_timeout=120.0),
     "latency_link": Family("latency_link", gen_profile("latency_link"), run_linked, shrink=shrink_script, case_timeout=120.0),
     "chain": Family("chain", gen_profile("chain"), run_linked, shrink=shrink_script, case_timeout=120.0),
+    "daemon": Family("daemon", gen_profile("daemon"), run_linked, shrink=shrink_script, case_timeout=120.0),
+    "cancel": Family("cancel", gen_profile("cancel"), run_linked, shrink=shrink_script, case_timeout=120.0),
+    "duplinks": Family("duplinks", gen_profile("duplinks"), run_linked, shrink=shrink_script, case_timeout=120.0),
     "independent": Family("independent", gen_independent, run_independent, case_timeout=120.0),
     "config": Family("config", gen_config, run_config, case_timeout=60.0),
 }
 
 BUDGET = {
-    "quick": {"linked": 160, "boundary": 120, "idle": 24, "far_epoch": 40, "latency_link": 40, "chain": 60, "independent": 60, "config": 30},
+    "quick": {
+        "linked": 130,
+        "boundary": 100,
+        "idle": 24,
+        "far_epoch": 40,
+        "latency_link": 40,
+        "chain": 50,
+        "daemon": 50,
+        "cancel": 60,
+        "duplinks": 20,
+        "independent": 50,
+        "config": 30,
+    },
     "thorough": {
-        "linked": 2000,
-        "boundary": 1600,
+        "linked": 1700,
+        "boundary": 1300,
         "idle": 150,
         "far_epoch": 500,
         "latency_link": 500,
-        "chain": 800,
+        "chain": 700,
+        "daemon": 600,
+        "cancel": 700,
+        "duplinks": 200,
         "independent": 600,
         "config": 100,
     },
